@@ -271,6 +271,10 @@ pub struct PlayOpts {
     /// can run (C09/C08: everything that can coincide in one wake-up does)
     #[serde(default)]
     pub stall_at: Option<(usize, u64)>,
+    /// timed abort: (history index of the group, command index, scheduling
+    /// step): SIGKILL to the process group of that command at that step
+    #[serde(default)]
+    pub kill_cmd_at: Option<(usize, usize, u64)>,
 }
 
 fn set_mtime(path: &Path, ns: u64) {
@@ -576,6 +580,11 @@ fn play_group(
         if g == idx {
             sim.kill_at = Some((k, tree));
             sim.kill_scripts = opts.kill_scripts;
+        }
+    }
+    if let Some((g, ci, at)) = opts.kill_cmd_at {
+        if g == idx {
+            sim.kill_cmd_at = Some((ci, at));
         }
     }
     if let Some((g, k)) = opts.stall_at {
